@@ -177,6 +177,11 @@ theorem merge_then_resolve (s : Schema) (hd : idsDistinct s = true) (base ours t
     simp only [Prod.ext_iff] at hk
     rw [hrows, hk.1]
 
+/-- the hypotheses of `merge_then_resolve` are met by the conflicted example below -/
+example : idsDistinct [⟨1, .int⟩] = true ∧ tableOk ⟨[⟨1, .int⟩], [(1, [some (.int 1)])]⟩ = true ∧
+    tableOk ⟨[⟨1, .int⟩], [(1, [some (.int 2)])]⟩ = true ∧ tableOk ⟨[⟨1, .int⟩], [(1, [some (.int 3)])]⟩ = true ∧
+    (specKey [⟨1, .int⟩] (some [some (.int 1)]) (some [some (.int 2)]) (some [some (.int 3)])).2 = true := by decide
+
 /-- non-vacuity: a conflicted merge whose resolution with theirs installs theirs' row -/
 example :
     let base : Table := ⟨[⟨1, .int⟩], [(1, [some (.int 1)])]⟩
